@@ -108,6 +108,9 @@ func (r *DefaultReader) acquireSlow(n int) int {
 		r.buf = r.buf[:len(r.buf)+m]
 		if err != nil {
 			r.err = err
+			if n <= len(r.buf)-r.ri {
+				return n
+			}
 			return len(r.buf) - r.ri
 		}
 		if n <= len(r.buf)-r.ri {
